@@ -45,7 +45,10 @@ def gen_function(rng, fid, role, avail, phase_ctx, opts, later=()):
     pool_all = NAMES + BUILTINS + ['context']
     chosen = []
     for _ in range(n):
-        if pool_ok and not rng.chance(deviate * 2):
+        if later and rng.chance(0.12):
+            # a name that only an inner layer offers: not available here, so (given a default below) the default applies
+            p = rng.pick(sorted(later))
+        elif pool_ok and not rng.chance(deviate * 2):
             p = rng.pick(pool_ok)
         else:
             if _used and rng.chance(0.5):
@@ -68,6 +71,11 @@ def gen_function(rng, fid, role, avail, phase_ctx, opts, later=()):
         params = [('next', 'req')] + params
     form = rng.pick(MW_FORMS if role == 'mw' else EP_FORMS)
     spec = {'fid': fid, 'params': [list(p) for p in params], 'form': form}
+    if (form == 'method' or (form == 'callable_object' and role != 'mw')) and rng.chance(0.2):
+        # the object the function is bound to is falsy (an empty container type).  Not for callable objects used as
+        # middleware functions: Middleware.request/endpoint/render are None when absent and clastic tests them for
+        # truth, so a falsy object there *is* "no function" by the framework's own convention
+        spec['falsy'] = True
     if role == 'mw' and rng.chance(0.3):
         spec['next_style'] = 'pos'      # hands its provided values to next() positionally
     return spec
@@ -157,20 +165,20 @@ def gen_config(rng, opts=None):
             if ph == 'request':
                 prov = set(n for j in range(i) if 'request' in mws[j]['phases'] and visible(mws[j]['where'], where)
                            for n in mws[j]['provides'])
-                later = all_req - prov
+                later = all_req - prov - base
             elif ph == 'endpoint':
                 prov = set(n for j in range(len(mws)) if 'request' in mws[j]['phases'] and visible(mws[j]['where'], where)
                            for n in mws[j]['provides'])
                 prov |= set(n for j in range(i) if 'endpoint' in mws[j]['phases'] and visible(mws[j]['where'], where)
                             for n in mws[j]['endpoint_provides'])
-                later = set()
+                later = set(n for j in range(i + 1, len(mws)) if 'endpoint' in mws[j]['phases'] for n in mws[j]['endpoint_provides']) - prov - base
             else:
                 prov = set(n for j in range(len(mws)) if 'request' in mws[j]['phases'] and visible(mws[j]['where'], where)
                            for n in mws[j]['provides'])
                 prov |= set(n for j in range(i) if 'render' in mws[j]['phases'] and visible(mws[j]['where'], where)
                             for n in mws[j]['render_provides'])
                 prov |= {'context'}
-                later = set()
+                later = set(n for j in range(i + 1, len(mws)) if 'render' in mws[j]['phases'] for n in mws[j]['render_provides']) - prov - base
             mw[ph] = gen_function(rng, '%s.%s' % (mw['mid'], ph), 'mw', base | prov, ph, opts, later)
     vis_req = set(n for mw in mws if 'request' in mw['phases'] and visible(mw['where'], nlev) for n in mw['provides'])
     ep_avail = base_at(nlev) | vis_req | set(n for mw in mws if 'endpoint' in mw['phases'] and visible(mw['where'], nlev)
